@@ -20,6 +20,8 @@ use std::pin::Pin;
 use std::sync::Arc;
 
 pub(crate) struct Subscriber {
+    /// The number of the connection (see `backend::next_conn`)
+    pub(crate) conn: u64,
     pub(crate) subscriptions: Vec<Vec<u8>>,
     pub(crate) send_queue: Pin<Box<ZmqFramedWrite>>,
     _subscription_coro_stop: oneshot::Sender<()>,
@@ -32,7 +34,21 @@ pub(crate) struct PubSocketBackend {
 }
 
 impl PubSocketBackend {
-    fn message_received(&self, peer_id: &PeerIdentity, message: Message) {
+    /// Forgets connection `conn` of a peer, not a newer connection registered under its identity
+    fn forget_conn(&self, peer_id: &PeerIdentity, conn: u64) {
+        log::info!("Client disconnected {:?}", peer_id);
+        let forgotten = self
+            .subscribers
+            .remove_if_sync(peer_id, |subscriber| subscriber.conn == conn)
+            .is_some();
+        if forgotten {
+            if let Some(monitor) = self.monitor().lock().as_mut() {
+                let _ = monitor.try_send(SocketEvent::Disconnected(peer_id.clone()));
+            }
+        }
+    }
+
+    fn message_received(&self, peer_id: &PeerIdentity, conn: u64, message: Message) {
         let data = match message {
             Message::Message(m) => {
                 if m.len() != 1 {
@@ -52,15 +68,19 @@ impl PubSocketBackend {
             Some(1) => {
                 // Subscribe
                 if let Some(mut entry) = self.subscribers.get_sync(peer_id) {
-                    entry.subscriptions.push(Vec::from(&data[1..]));
+                    if entry.conn == conn {
+                        entry.subscriptions.push(Vec::from(&data[1..]));
+                    }
                 }
             }
             Some(0) => {
                 // Unsubscribe
                 let sub = Vec::from(&data[1..]);
                 if let Some(mut entry) = self.subscribers.get_sync(peer_id) {
-                    if let Some(index) = entry.subscriptions.iter().position(|s| s == &sub) {
-                        entry.subscriptions.remove(index);
+                    if entry.conn == conn {
+                        if let Some(index) = entry.subscriptions.iter().position(|s| s == &sub) {
+                            entry.subscriptions.remove(index);
+                        }
                     }
                 }
             }
@@ -96,10 +116,12 @@ impl MultiPeerBackend for PubSocketBackend {
         let (mut recv_queue, send_queue) = io.into_parts();
         // TODO provide handling for recv_queue
         let (sender, stop_receiver) = oneshot::channel();
+        let conn = crate::backend::next_conn();
         self.subscribers
             .upsert_async(
                 peer_id.clone(),
                 Subscriber {
+                    conn,
                     subscriptions: vec![],
                     send_queue: Box::pin(send_queue),
                     _subscription_coro_stop: sender,
@@ -125,14 +147,14 @@ impl MultiPeerBackend for PubSocketBackend {
                             None => break,
                         };
                         match message {
-                            Some(Ok(m)) => backend.message_received(&peer_id, m),
+                            Some(Ok(m)) => backend.message_received(&peer_id, conn, m),
                             Some(Err(e)) => {
                                 log::debug!("Error receiving message: {:?}", e);
-                                backend.peer_disconnected(&peer_id);
+                                backend.forget_conn(&peer_id, conn);
                                 break;
                             }
                             None => {
-                                backend.peer_disconnected(&peer_id);
+                                backend.forget_conn(&peer_id, conn);
                                 break
                             }
                         }
@@ -181,7 +203,7 @@ impl SocketSend for PubSocket {
                         Ok(()) => {}
                         Err(ZmqError::Codec(CodecError::Io(e))) => {
                             if e.kind() == ErrorKind::BrokenPipe {
-                                dead_peers.push(subscriber.key().clone());
+                                dead_peers.push((subscriber.key().clone(), subscriber.conn));
                             } else {
                                 log::error!("Error receiving message: {:?}", e);
                             }
@@ -202,8 +224,8 @@ impl SocketSend for PubSocket {
             }
             iter = subscriber.next_async().await;
         }
-        for peer in dead_peers {
-            self.backend.peer_disconnected(&peer);
+        for (peer, conn) in dead_peers {
+            self.backend.forget_conn(&peer, conn);
         }
         Ok(())
     }
